@@ -320,7 +320,7 @@ func guardTenure(e *env, sc scen, t *tap, spinner gsync.Locker, hold time.Durati
 			}
 			if spinner.TryLock(context.Background()) {
 				mu.Lock()
-				out = append(out, finding{sig: "lease/contender-acquired-while-held/" + label, what: fmt.Sprintf("%s L=%v: TryLock of a contender succeeded at %v during the tenure of a caller that had acquired after waiting", sc.Kind, L, time.Since(e.base)), w: map[string]any{"scenario": sc, "tap": t.events()}})
+				out = append(out, finding{sig: "lease/contender-acquired-while-held/" + label, what: fmt.Sprintf("%s L=%v: TryLock of a contender succeeded at %v during the tenure of a caller that had acquired after waiting", sc.Kind, L, time.Since(e.base)), timeBound: true, w: map[string]any{"scenario": sc, "tap": t.events()}})
 				mu.Unlock()
 				spinner.Unlock()
 				return
@@ -425,7 +425,7 @@ func holdScenario(sc scen, hold time.Duration) []finding {
 			tries.Add(1)
 			if c1.TryLock(context.Background()) {
 				if holders.Add(1) > 1 {
-					add(finding{sig: "lease/contender-acquired-while-held/TryLock", what: fmt.Sprintf("%s L=%v: TryLock of a contender succeeded at %v while the holder still holds", sc.Kind, L, time.Since(e.base)), w: sc})
+					add(finding{sig: "lease/contender-acquired-while-held/TryLock", what: fmt.Sprintf("%s L=%v: TryLock of a contender succeeded at %v while the holder still holds", sc.Kind, L, time.Since(e.base)), timeBound: true, w: sc})
 				}
 				holders.Add(-1)
 				c1.Unlock()
@@ -468,7 +468,7 @@ func holdScenario(sc scen, hold time.Duration) []finding {
 		defer wg.Done()
 		if c2.LockWithCtx(ctx) == nil {
 			if holders.Add(1) > 1 {
-				add(finding{sig: "lease/contender-acquired-while-held/LockWithCtx", what: fmt.Sprintf("%s L=%v: a parked LockWithCtx of a contender returned nil at %v while the holder still holds", sc.Kind, L, time.Since(e.base)), w: sc})
+				add(finding{sig: "lease/contender-acquired-while-held/LockWithCtx", what: fmt.Sprintf("%s L=%v: a parked LockWithCtx of a contender returned nil at %v while the holder still holds", sc.Kind, L, time.Since(e.base)), timeBound: true, w: sc})
 			}
 			c2Got <- true
 			<-c2Release
@@ -565,7 +565,8 @@ func deathScenario(sc scen) []finding {
 	time.Sleep(L + sc.Phase)
 	select {
 	case at := <-acq:
-		out = append(out, finding{sig: "lease/contender-acquired-while-held/Lock", what: fmt.Sprintf("S3 L=%v: the waiting contender acquired at %v while the holder was alive and holding", L, at), w: sc})
+		// rests on the holder's renewals being on time (a two-sided time bound): guarded by the canary like the others
+		out = append(out, finding{sig: "lease/contender-acquired-while-held/Lock", what: fmt.Sprintf("S3 L=%v: the waiting contender acquired at %v while the holder was alive and holding", L, at), timeBound: true, w: sc})
 		c.Unlock()
 		h.Unlock()
 		pH.Shutdown()
@@ -1020,7 +1021,7 @@ func TestCheck(t *testing.T) {
 	run := report.New("C05", "fault_enumeration")
 	defer run.Finish(t)
 	run.Rule("real-clock scenarios with lease L set through a hook, one storage tap per provider: S1 hold for 6 L (20 L thorough) with a TryLock-spinning and a parked contender, the holder acquiring through Lock, through LockWithCtx or through TryLock with a context that is cancelled right after the acquisition (the tap refuses calls whose context is done, as a network backend does); S6 a renewal answered with an error while the holder is unlocking, then another caller holds; S2 the k-th renewal CAS answered by an injected error without executing, for every k<=K, and sets of several failing calls in one tenure ({1,3,5}, {2,4,6}, {1,3,5,7}, {1,2}, {3,4}, six, seven and eight non-consecutive failures up to the 14th call); during S1/S2 goroutines of the holder's process keep trying TryLock / LockWithCtx on the SAME (held) Locker object; S3 the holder's storage access dies at a phase of the renewal cycle and a parked contender must take over after the last lease ran out; S5 the answer of the k-th renewal is still in flight (applied by the storage) when the holder unlocks and the same Locker locks again, then the late answer arrives (variants: same Locker locks again / another provider's Locker holds next): the new tenure is held 3 L under the monitors; the order invariant of the timer queue (hook) is sampled throughout; S8 (one child process each) every renewal is slow but well inside half a lease (request slow L/6, answer slow 0.3 L, both L/8; a caller whose context ends meanwhile gets the context's error), hold 5 L; S2 also with the holder's provider shut down right after the acquisition (the holder holds on); S12 the old tenure's renewal request reaches the storage between Unlock and the next caller's Create (same Locker): the next caller must acquire; S11 A's renewal request is on its way when A unlocks, B acquires and dies, A's Locker waits again, then the old request fails transiently: B's record must still run out and A acquire (context 4 L + 3 s); S10 (child processes) two locks taken together in one process, the storage of the OTHER lock answers its renewal after 0.75 leases: the watched lock (its storage answers at once) is held 3 leases against a spinning Locker; S9 (child processes, pool staged to 3 idle workers) the storage answers renewals 0.15 L late, the holder unlocks while an answer is on its way, the answer arrives, the same Locker locks again shortly after and holds 4 L; S7 (one child process each, nothing else uses the timer pool): the pool already has 2/3/5 idle workers when the lock is taken, or the process already has far timers pending (a lock of another name with a 30 s lease, a foreign timer 20 s ahead; 0/1/3 idle workers), hold 4 L; S4 Unlock after hold times around multiples of L/2 with renewals delayed 0-5 ms (Unlock racing a renewal), then nothing / re-acquisition by the same / another Locker. In S1-S3 the caller that takes over after waiting holds for 3 L under the same monitors (its first lease must be a full one). Monitors over the tap log and probes of the record: exclusion, lease gap (each renewal completes before the lease it renews runs out), record present while held, renewal chain survives a transient error, take-over never before and at most L+2 s after the last lease ran out, at most one failing stale renewal after Unlock. distinct = distinct (scenario kind, L, k / phase / re-acquisition) instances run")
-	run.Assume("two-sided time bounds are guarded by a stall canary: a bound broken while the canary saw a stall above L/8 is repeated (up to 3 times) and only a repeat without stall counts")
+	run.Assume("exclusion during a tenure presupposes renewals that are on time, i.e. a machine that does not stall the process for a good part of a lease: like every verdict that rests on a two-sided time bound, a contender that acquires while the holder holds counts only when the canary saw no stall above L/8; two-sided time bounds are guarded by a stall canary: a bound broken while the canary saw a stall above L/8 is repeated (up to 3 times) and only a repeat without stall counts")
 	run.Assume("a transient renewal failure is an attempt that was not applied (request lost); unacknowledged but applied renewals are not generated")
 
 	if p := os.Getenv("VERIF_REPLAY"); p != "" {
